@@ -346,6 +346,7 @@ inductive Op
   | tickHold                   -- like tick, but the loop stops at the gate before a re-push (if it gets there)
   | tickRelease                -- ... released: re-push, StopProcessing, end of pass; then the TTL watcher runs
   | advance (ms : Nat)         -- the mock clock moves while the loop stands at the gate (no loop timer pending)
+  | arriveTick (prio : Nat)    -- a tick whose loop pass runs while an arriving request is inside `queue.Enqueue`
 deriving DecidableEq, Repr
 
 structure Sim where
@@ -391,6 +392,12 @@ def opActs (cfg : Cfg) (x : Sim) : Op → List Act
     repeatActs (.loopStep 0 :: settleActs x.hold x.s.n) 3 ++
     .wScan :: repeatActs (.wStep 0 :: settleActs x.hold x.s.n) (2 * x.s.n + 2)
   | .advance ms => [.advance ms]
+  | .arriveTick p =>
+    -- clock +100 ms and the watcher first, as in `tick`; then the arrival up to and including its
+    -- `Enqueue` (the request is registered BEFORE it is published); then the loop's pass
+    [.advance 100, .wScan] ++ repeatActs (.wStep 0 :: settleActs x.hold x.s.n) (2 * x.s.n + 2) ++
+    [.arrive p, .register x.s.n, .push x.s.n, .loopFire] ++
+    repeatActs (.loopStep 0 :: settleActs x.hold (x.s.n + 1)) (6 * (x.s.heap.length + 2) + 2)
 
 def applyOp (cfg : Cfg) (x : Sim) (op : Op) : Sim :=
   let s' := run cfg x.s (opActs cfg x op)
